@@ -738,7 +738,7 @@ func (ex *Exec) enterLoop(h *ssa.BasicBlock, li *loopInfo, preds []*ssa.BasicBlo
 		for k, inv := range li.spec.Invariants {
 			t, err := env.Goal(inv.E)
 			if err != nil {
-				if !strings.Contains(err.Error(), "unknown identifier") {
+				if !staleRef(err) {
 					unsup("loop %d invariant %d: %v", li.index, k, err)
 				}
 				// the invariant names a local that is not carried by this
@@ -781,7 +781,7 @@ func (ex *Exec) enterLoop(h *ssa.BasicBlock, li *loopInfo, preds []*ssa.BasicBlo
 		for _, inv := range li.spec.Invariants {
 			t, err := env2.Bool(inv.E)
 			if err != nil {
-				if !strings.Contains(err.Error(), "unknown identifier") {
+				if !staleRef(err) {
 					unsup("loop %d invariant: %v", li.index, err)
 				}
 				continue // not assumable: nothing is assumed
@@ -1495,7 +1495,7 @@ func (ex *Exec) backEdge(from, h *ssa.BasicBlock) {
 		for k, inv := range li.spec.Invariants {
 			t, err := env.Goal(inv.E)
 			if err != nil {
-				if !strings.Contains(err.Error(), "unknown identifier") {
+				if !staleRef(err) {
 					unsup("loop %d invariant: %v", li.index, err)
 				}
 				t = "false"
@@ -1519,7 +1519,7 @@ func (ex *Exec) backEdge(from, h *ssa.BasicBlock) {
 				for k, st := range li.spec.Steps {
 					t, err := senv.Goal(st.E)
 					if err != nil {
-						if strings.Contains(err.Error(), "unknown identifier") {
+						if staleRef(err) {
 							// the clause speaks about a call or local that does
 							// not exist (any more)
 							t = "false"
